@@ -681,11 +681,23 @@ impl<W: Word, B: AsRef<[W]> + AsMut<[W]>> BitFieldSliceMut<W> for BitFieldVec<W,
         }
         let bit_width = self.bit_width();
         if bit_width == 0 {
+            for _ in 0..self.len() {
+                f(W::ZERO);
+            }
             return;
         }
         let mask = self.mask();
-        let number_of_words: usize = self.bits.as_ref().len();
+        // Only the words containing elements are scanned: the backend might
+        // be larger
+        let number_of_words: usize = (self.len() * bit_width).div_ceil(W::BITS);
         let last_word_idx = number_of_words.saturating_sub(1);
+        // Bits of the last word that are not part of the vector must be preserved
+        let residual = (self.len() * bit_width) % W::BITS;
+        let last_word_extra = if residual == 0 {
+            W::ZERO
+        } else {
+            *self.bits.as_ref().get_unchecked(last_word_idx) & (W::MAX << residual)
+        };
 
         let mut write_buffer: W = W::ZERO;
         let mut read_buffer: W = *self.bits.as_ref().get_unchecked(0);
@@ -713,8 +725,13 @@ impl<W: Word, B: AsRef<[W]> + AsMut<[W]>> BitFieldSliceMut<W> for BitFieldVec<W,
                     }
 
                     let value = read_buffer & mask;
-                    // throw away the bits we just read
-                    read_buffer >>= bit_width;
+                    // throw away the bits we just read (a shift by W::BITS
+                    // would overflow)
+                    read_buffer = if bit_width == W::BITS {
+                        W::ZERO
+                    } else {
+                        read_buffer >> bit_width
+                    };
                     // apply user func
                     let new_value = f(value);
                     // put the new value in the write buffer
@@ -733,8 +750,13 @@ impl<W: Word, B: AsRef<[W]> + AsMut<[W]>> BitFieldSliceMut<W> for BitFieldVec<W,
             // write the last word if we have some bits left
             while bits_in_buffer < buffer_limit {
                 let value = read_buffer & mask;
-                // throw away the bits we just read
-                read_buffer >>= bit_width;
+                // throw away the bits we just read (a shift by W::BITS would
+                // overflow)
+                read_buffer = if bit_width == W::BITS {
+                    W::ZERO
+                } else {
+                    read_buffer >> bit_width
+                };
                 // apply user func
                 let new_value = f(value);
                 // put the new value in the write buffer
@@ -743,7 +765,7 @@ impl<W: Word, B: AsRef<[W]> + AsMut<[W]>> BitFieldSliceMut<W> for BitFieldVec<W,
                 bits_in_buffer += bit_width;
             }
 
-            *self.bits.as_mut().get_unchecked_mut(last_word_idx) = write_buffer;
+            *self.bits.as_mut().get_unchecked_mut(last_word_idx) = write_buffer | last_word_extra;
             return;
         }
 
@@ -818,7 +840,7 @@ impl<W: Word, B: AsRef<[W]> + AsMut<[W]>> BitFieldSliceMut<W> for BitFieldVec<W,
             offset += bit_width;
         }
 
-        *self.bits.as_mut().get_unchecked_mut(last_word_idx) = write_buffer;
+        *self.bits.as_mut().get_unchecked_mut(last_word_idx) = write_buffer | last_word_extra;
     }
 
     type ChunksMut<'a>
